@@ -20,6 +20,7 @@ type PropConfig struct {
 	Specs     []string // spec files under /verif/specs
 	Undecided []string // clauses of the property this check does not decide
 	Assume    []string // standing modelling assumptions
+	Gen       func(e *Engine, ld *Loaded) ([]FuncTarget, error) // contracts generated from the code at check time
 	Extra     func(ck *Checker, rep *Report, opts *Options) []*Goal
 	Post      func(ck *Checker, rep *Report, opts *Options)
 }
@@ -97,6 +98,14 @@ func RunCheck(id string, opts *Options) (*Report, int) {
 		if err != nil {
 			rep.Broken = append(rep.Broken, "contracts: "+err.Error())
 			return rep, 2
+		}
+		if pc.Gen != nil {
+			gt, err := pc.Gen(e, ld)
+			if err != nil {
+				rep.Broken = append(rep.Broken, "contract generation: "+err.Error())
+				return rep, 2
+			}
+			targets = append(targets, gt...)
 		}
 		for _, lm := range lemmas {
 			if !hasProp(lm.Props, id) || (opts.OnlyFn != "" && !strings.Contains(lm.Name, opts.OnlyFn)) {
